@@ -396,6 +396,17 @@ pub fn c05(ctx: &mut Ctx, layer: &str) {
 // C07
 
 fn cuts_for(r: &mut Rng, len: usize, hdr: usize) -> Vec<usize> {
+    if cfg!(miri) && len > 10 {
+        // under Miri: the structure edges and a few random cuts per packet
+        let mut v: Vec<usize> = vec![0, 1, hdr.saturating_sub(1), hdr, hdr + 1, len - 1];
+        for _ in 0..4 {
+            v.push(r.below(len as u64) as usize);
+        }
+        v.retain(|c| *c < len);
+        v.sort_unstable();
+        v.dedup();
+        return v;
+    }
     if len <= 4096 {
         return (0..len).collect();
     }
@@ -446,7 +457,7 @@ pub fn c07_packet(c: &mut Ctx, r: &mut Rng, fam: Fam, rp: &RP, case: &Case) {
     c.sample(|| format!("v{} {} ({} bytes, {} cuts)", f, t, enc.len(), enc.len().min(4096)));
     let cuts = cuts_for(r, enc.len(), hdr);
     c.countn("cuts", cuts.len() as u64);
-    if enc.len() <= 4096 {
+    if enc.len() <= 4096 && !cfg!(miri) {
         c.count("all-cuts-covered");
     }
     for k in cuts {
@@ -762,6 +773,15 @@ pub fn c08(ctx: &mut Ctx, layer: &str) {
 // C14
 
 fn positions_for(r: &mut Rng, len: usize, hdr: usize) -> Vec<usize> {
+    if cfg!(miri) && len > 6 {
+        let mut v: Vec<usize> = vec![0, hdr, len - 1, len];
+        for _ in 0..3 {
+            v.push(r.below(len as u64 + 1) as usize);
+        }
+        v.sort_unstable();
+        v.dedup();
+        return v;
+    }
     if len <= 2048 {
         return (0..=len).collect();
     }
@@ -803,10 +823,10 @@ pub fn c14_packet(c: &mut Ctx, r: &mut Rng, fam: Fam, rp: &RP, case: &Case) {
     c.distinct(fnv_bytes(f as u64, &enc));
     c.sample(|| format!("v{} {} ({} bytes): faults at every position 0..={}", f, t, enc.len(), enc.len()));
     let pos = positions_for(r, enc.len(), hdr);
-    if enc.len() <= 2048 {
+    if enc.len() <= 2048 && !cfg!(miri) {
         c.count("all-positions-covered");
     }
-    let kinds: Vec<io::ErrorKind> = if enc.len() <= 64 { KINDS.to_vec() } else { vec![*r.pick(&KINDS), *r.pick(&KINDS)] };
+    let kinds: Vec<io::ErrorKind> = if enc.len() <= 64 && !cfg!(miri) { KINDS.to_vec() } else { vec![*r.pick(&KINDS), *r.pick(&KINDS)] };
     for &p in &pos {
         // ---- read faults
         for fault in kinds.iter().map(|k| RFault::Err(*k)).chain(std::iter::once(RFault::Eof)) {
